@@ -184,6 +184,9 @@ func ParseContractFile(path string, cs *ContractSet) error {
 		switch word {
 		case "func":
 			name := strings.TrimSpace(rest)
+			if i := strings.Index(name, "#"); i >= 0 {
+				name = strings.TrimSpace(name[:i]) + "#" + strings.TrimSpace(name[i+1:])
+			}
 			cur = &Contract{Func: name, Loops: map[int]*LoopSpec{}, Ghost: map[string]string{}}
 			curLemma = nil
 			if _, dup := cs.Funcs[name]; dup {
